@@ -29,6 +29,14 @@ def handle (ws : List String) : String :=
       let o := phaseOne fl
       let t := whole fl (p2 == "commit")
       s!"{joinSp (t.map showEv)} | err={if o.error then 1 else 0} state={showSt (dbState t)}"
+  | ["xa2", d1, d2, order] =>
+    -- two branches prepared one after the other (on one pooled connection), then phase two for both
+    let c1 := d1 == "commit"
+    let c2 := d2 == "commit"
+    let p1 := (phaseOne .none).trace
+    let two := if order == "12" then phaseTwo c1 ++ phaseTwo c2 else phaseTwo c2 ++ phaseTwo c1
+    let st (c : Bool) : String := showSt (dbState (whole .none c))
+    s!"{joinSp ((p1 ++ p1 ++ two).map showEv)} | err=0 state={st c1},{st c2}"
   | ["id", xid, br] =>
     match br.toNat? with
     | none => "bad-id"
